@@ -407,6 +407,8 @@ def case(ctx, i, rng):
         ctx.count("values_" + v.replace(":", "_").replace("-", "_"))
         if v == "rejected":
             ctx.covered("rejected_with", f"{info['kind']}:{info['exc']}:{type(expr).__name__}")
+            if info["kind"] != "direct":
+                ctx.covered("rejected_messages", f"{info['exc']}: {info['msg']}")
         if v == "symbolic":
             ctx.covered("symbolic_results", info["type"])
         if v.startswith("whole-"):
